@@ -799,6 +799,33 @@ def run(case, ctx):
                                 'no-mention:' + kind,
                                 '%s: difference %s %r not described in %r'
                                 % (entry, kind, what, msg[:300]))
+    if o['type_matching'] in ('medium', 'permissive') and entry in (
+            'check_dataframe', 'assertDataFramesEqual'):
+        # a history: the same pair compared again at the other loose level
+        # (what was decided about a pair of dtypes at one level says
+        # nothing about the other)
+        other = 'permissive' if o['type_matching'] == 'medium' else 'medium'
+        case2 = dict(case, opts=dict(o, type_matching=other))
+        expect2, reasons2 = model(case2, cmp_ref, cmp_act)
+        kw2 = dict(kw, type_matching=other)
+        rec.calls = []
+        if entry == 'check_dataframe':
+            ok2, r2 = quiet(pc.check_dataframe, act_df, ref_df, **kw2)
+            got2 = ok2 and r2.failures == 0
+        else:
+            ok2, r2 = quiet(rt.assertDataFramesEqual, act_df, ref_df, **kw2)
+            got2 = not rec.failed
+        out.label('history:second-comparison-at-other-level')
+        if ok2 and got2 != expect2:
+            out.violate('verdict', 'second-comparison:%s-after-%s'
+                        % (other, o['type_matching']),
+                        '%s at %s (after the same comparison at %s) %s but '
+                        'the model says %s %r; ref dtypes %r actual dtypes %r'
+                        % (entry, other, o['type_matching'],
+                           'passed' if got2 else 'failed',
+                           'pass' if expect2 else 'fail', reasons2,
+                           {c: t.name for (c, t) in cmp_ref.dtypes.items()},
+                           {c: t.name for (c, t) in cmp_act.dtypes.items()}))
     return out
 
 
